@@ -81,9 +81,9 @@ class AbstractVector(StructuredRecord):
         the assembly.
         """
         if self.cutter.is_3overhang():
-            return self._match.group(2) + self.overhang_end()
+            return self._match.group(2) + self.overhang_start()
         else:
-            return self.overhang_start() + self._match.group(2)
+            return self.overhang_end() + self._match.group(2)
 
     def target_sequence(self):
         # type: () -> SeqRecord
